@@ -378,6 +378,25 @@ def run(rep: Report, tier: str) -> None:
             ok = t[0] == "fld" and _is_sent_minus_received(m, ci, m.field_defs(ci).get(t[2], []), m.field_defs(ci), allow_spot=False)
             rep.check(ok, r, ci.module, f"{ci.name}.crypto_balance_change", f"{ci.name}.crypto_balance_change", f"IntraTransaction.crypto_balance_change normalises to {show(t)}; expected a field defined as crypto_sent - crypto_received (only the fee is disposed)", detail=show(t))
 
+    # the field those getters read holds the whole disposal: for OUT, when the optional 'crypto_out_with_fee' column is absent, amount + fee
+    from ..rp2model import GIVEN, effective_field_value
+    from ..norm import mk_add as _mk_add, strip_validators as _sv
+
+    out = classes["out"]
+    odefs = m.field_defs(out)
+    for env_name, env in (("absent", {"crypto_out_with_fee": None}), ("given", {"crypto_out_with_fee": GIVEN})):
+        v = effective_field_value(m, odefs.get("OutTransaction.__crypto_out_with_fee", []), env)
+        v = _sv(v) if v is not None else None
+        if env_name == "absent":
+            want_v = _mk_add([("fld", ("sym", "self"), "OutTransaction.__crypto_out_no_fee"), ("fld", ("sym", "self"), "OutTransaction.__crypto_fee")])
+            # the getter 'self.crypto_fee' is the field itself
+            ok = v is not None and tkey(v) == tkey(want_v)
+            msg = f"without the optional column the amount a disposal takes from lots is {show(v) if v else None}; expected crypto_out_no_fee + crypto_fee: the fee is disposed of too (a sale of 1 with fee 0.01 consumes 1.01)"
+        else:
+            ok = v == ("sym", "crypto_out_with_fee")
+            msg = f"with the optional column supplied the amount is {show(v) if v else None}; expected the supplied (validated) value"
+        rep.check(ok, r, out.module, "OutTransaction.__init__", f"OutTransaction.crypto_out_with_fee [{env_name}]", msg, detail=show(v) if v else "")
+
     # the taxable events a run *reports* are those of the window: the views handed to ComputedData / the generators come from the entry-set iterator
     from . import c10
 
